@@ -21,7 +21,7 @@ CLAIM = dict(
           "view::broadcast_binary_ufunc, view::where, view::unary_ufunc, outer_add/outer_subtract/view::outer(custom op) over all pairs of "
           "shapes dim 0..3 extents 1..3 incl. scalars, element-wise views and fixed-rank arrays as operands, int64 data, exact; "
           "(b) identity of 86 element-wise functions (68 ufuncs incl. bitwise/logical/comparison/math, 18 activations): view::<fn> on a "
-          "small double array (the 39 unary math functions also on a float array) compared BIT FOR BIT with the scalar formula evaluated in the same process with the same libm — a C++-side "
+          "small array compared BIT FOR BIT (float64 and float32; moderate values AND the ends of the type's range: MAX/2, k*sqrt(MAX), k*sqrt(MIN), MIN, denormals, +-0, +-inf, NaN, mixed large/tiny pairs; the reference is libm's function on the same element type) with the scalar formula evaluated in the same process with the same libm — a C++-side "
           "oracle: the model side only prints the constant expectation 'ok' (there is no Coq model of libm); (c) element types of "
           "add/subtract/multiply/divide/less/equal views over the 10x10 numeric type pairs and of sum, read off the view type and compared "
           "with promote_cxx / bool / the operand type; every ARGUMENT FORM selecting the result type — fn(a,b), casting::auto_t, casting::same_kind_t, "
@@ -29,8 +29,8 @@ CLAIM = dict(
           "int64/float/double with values whose exact result leaves the narrow type's range: values AND the element type of the view and of the "
           "evaluated array are compared with the table; array op scalar over element-type PAIRS (int array x fractional float scalar, narrow int x wide "
           "int scalar, float array x double scalar; scalar on either side; add subtract multiply divide power maximum minimum less where) with the "
-          "element type tag — FINDING on the tree before fixes/C07_scalar_operand_value.diff: maximum / minimum / power / where convert the scalar to the "
-          "array's element type first (maximum(int8 [1], 1000) = -24; power(int [4], 0.5) = 1); values AND types are compared with the table (C07_result_type_forms: default/auto = C++ promotion, same_kind/equiv = operand type, dtype "
+          "element type tag (a defect found here — maximum / minimum / power / where converted the scalar to the array's element type first — was "
+          "repaired in /repo d41ab70; regression Example C07_regression_scalar_operand); values AND types are compared with the table (C07_result_type_forms: default/auto = C++ promotion, same_kind/equiv = operand type, dtype "
           "= requested); operands with compile-time size but run-time shape (std::array buffer) evaluated under one- and two-sided broadcasting. NOT COVERED: view::clip and the n-ary view::ufunc with three operands do not "
           "instantiate in the pinned tree for any operand kind tried (static_assert; the suite's clip test is commented out of its "
           "CMakeLists) — compile-rejected, reported in notes/C07.md; view::divide, power and the other ufuncs have no result-type "
@@ -42,7 +42,7 @@ RULE = ("all ordered pairs of shapes dim 0..3 extents 1..3 (dim 0 = scalar), com
         "check; 200 sampled rank-4 pairs; 320 deferred-evaluation cases (8 composed forms x run-time / fixed shapes); every numeric type pair x op for the element-type table. non-trivial = an operand of dim >= 2 with an extent > 1; "
         "distinct = distinct case lines")
 THEOREM_STATUS = {"proved": ["C07_unary", "C07_binary_shape", "C07_binary_elem", "C07_ternary", "C07_outer", "C07_dtype_table", "C07_result_type_forms"],
-                  "partial": [], "refuted": ["C07_scalar_operand_as_array_type_refuted"]}
+                  "partial": [], "refuted": []}
 ASSUMPTIONS = ["extents are positive", "LP64 data model for the element-type table (int 32 bit, long 64 bit)",
                "identity of the scalar functions (libm) is compared in-process, not modelled"]
 
@@ -132,7 +132,14 @@ def gen_cases(rng, tier):
         out.append(("deferred", "defer S:%s S:%s %s %s I:%d %s %s I:%d" % (form, kind, arr(sa, lo, 9 if form != "wh" else 2), arr(sb), rng.randint(-5, 5),
                                                                             arr(sa, lo, 9 if form != "wh" else 2), arr(sb), rng.randint(-5, 5)), "c07"))
     for f in FNS: out.append(("identity", "ident S:%s" % f, "c07i"))
-    for f in FNS[:39]: out.append(("identity", "ident S:%s S:f32" % f, "c07i"))    # unary math functions on float data
+    # operand regimes: n = moderate values, x = the ends of the element type's range (large, tiny, denormal, +-0, +-inf, NaN and mixed pairs);
+    # float32 and float64 for the unary and binary math functions, float64 for the activations
+    NMATH = FNS.index("ldexp") + 1
+    for f in FNS[:NMATH]:
+        out.append(("identity", "ident S:%s S:f32 S:n" % f, "c07i"))
+        out.append(("identity-extremes", "ident S:%s S:f64 S:x" % f, "c07i"))
+        out.append(("identity-extremes", "ident S:%s S:f32 S:x" % f, "c07i"))
+    for f in FNS[FNS.index("relu"):]: out.append(("identity-extremes", "ident S:%s S:f64 S:x" % f, "c07i"))
     for op in ["add", "subtract", "multiply", "divide", "less", "equal"]:
         for t1 in TYPES:
             for t2 in TYPES: out.append(("dtype", "dtype S:%s S:%s S:%s" % (op, t1, t2), "c07d"))
@@ -213,11 +220,4 @@ def distribution(streams):
 
 
 def classify(line, impl, spec, model):
-    t = line.split(" ")
-    if t[0] == "ascal" and t[1][2:] in ("power", "maximum", "minimum", "where") and t[2] != t[3]:
-        # finding (fixes/C07_scalar_operand_value.diff): the scalar operand reaches the op as a 0-dim view and ops written with ?: /
-        # common_type convert it to the array's element type first: same shape, same element type tag, other values
-        a, b = impl.split(";"), spec.split(";")
-        if len(a) == 3 and len(b) == 3 and a[0].strip() == b[0].strip() and a[2].strip() == b[2].strip() and a[1].strip() != b[1].strip():
-            return "scalar-operand-converted-to-array-type"
     return None
